@@ -191,7 +191,7 @@ mod repr {
             // s >>= shift/2, r >>= shift
             let _ = shift::shr_in_place(&mut out, shift as u32 / 2);
             if !root_only {
-                if shift > WORD_BITS_USIZE {
+                if shift >= WORD_BITS_USIZE {
                     shift::shr_in_place_one_word(&mut buffer);
                     buffer.truncate(n);
                 } else {
